@@ -33,8 +33,10 @@ class Stats:
         self.encoded = {}
         self.samples = []
         self.notes = collections.Counter()
+        self.abandoned = collections.Counter()   # paths given up (reason -> count): the run is inconclusive unless a violation was replayed
 
     def merge(self, o):
+        self.abandoned.update(o.abandoned)
         self.q.update(o.q)
         self.solver_s += o.solver_s
         self.paths += o.paths
@@ -138,7 +140,7 @@ def _worker(args, in_child=True):
         return ("error", f"{item!r}: {type(e).__name__}: {e}\n{traceback.format_exc()}", copy.deepcopy(st) if in_child else st)
 
 
-def pmap(func, items, workers=None, chunksize=1):
+def pmap(func, items, workers=None, chunksize=1, problems=None):
     """run func(item) over items in forked workers; merges statistics; returns list of results.
     func must return a JSON-able result (typically a list of candidate violations)."""
     items = list(items)
@@ -167,6 +169,10 @@ def pmap(func, items, workers=None, chunksize=1):
         if pool is not None:
             pool.terminate()
             pool.join()
+    if problems is not None:
+        # the caller keeps the results of the items that finished and reports the others itself
+        problems.extend([("error", e) for e in errors] + [("inconclusive", i) for i in inconcl])
+        return out
     if errors:
         raise HarnessError("worker errors (%d), first: %s" % (len(errors), errors[0]))
     if inconcl:
@@ -208,7 +214,17 @@ class Run:
             print(f"PART-ERROR {self.pid}/{name}: {type(e).__name__}: {str(e)[:3000]}", flush=True)
 
     def pmap(self, name, func, items, **kw):
-        self.part(name, lambda: self.add_candidates(pmap(func, items, **kw)))
+        def thunk():
+            # candidates of the items that finished are kept even when other items of the same part failed
+            probs = []
+            self.add_candidates(pmap(func, items, problems=probs, **kw))
+            errors = [x for k, x in probs if k == "error"]
+            inconcl = [x for k, x in probs if k == "inconclusive"]
+            if errors:
+                raise HarnessError("worker errors (%d), first: %s" % (len(errors), errors[0]))
+            if inconcl:
+                raise Inconclusive("%d inconclusive items, first: %s" % (len(inconcl), inconcl[0]))
+        self.part(name, thunk)
 
     def candidate(self, payload):
         """payload: dict with 'signature' (dict), 'what' (str), and whatever replay needs"""
@@ -333,6 +349,9 @@ def main_wrapper(pid, tier, seed, body):
     try:
         body(run)
         run.triage()
+        if STATS.abandoned:
+            run.part_problems.append(("inconclusive", "paths", "; ".join(f"{n} path(s) abandoned: {r}" for r, n in STATS.abandoned.items())))
+            print(f"PATHS-ABANDONED {pid}: {dict(STATS.abandoned)}", flush=True)
         if run.violations:
             status, code = "violation", 1
         elif any(k == "error" for k, _, _ in run.part_problems):
